@@ -129,6 +129,9 @@ class Attack(object):
         opp = "s2c" if direction == "c2s" else "c2s"
         for g in self.genuine(opp, cl.addr, n=2):
             items.append(("reflection", (A.TO_SERVER if direction == "c2s" else A.TO_CLIENT) + g[4:]))
+        # ... and sent back exactly as it was (both directions are sealed under the same key: only the direction tag tells them apart)
+        for g in self.genuine(opp, cl.addr, n=4, pick="any"):
+            items.append(("reflection:verbatim", g))
         items += [("random:" + k, d) for k, d in A.random_datagrams(r, direction, 16 if heavy else 6)]
         return items
 
@@ -146,6 +149,18 @@ def history(cfg, case, out):
         w.net.set(c2s=L.Policy(loss=0.03, delay=(0.004, 0.02)), s2c=L.Policy(loss=0.03, delay=(0.004, 0.02)))
         a = w.add_client()
         a.updates_per_step = 2
+        # the two directions of a session count independently: here the server side starts far away from the client side, so a
+        # datagram of one direction carries numbers that are fresh for the other
+        CN0 = run.C
+        orig_sinit = CN0.ServerClientConnection.__init__
+        start_s = r.choice([20000, 40000, 65000])
+
+        def sinit(conn, ctxt, addr, _o=orig_sinit):
+            _o(conn, ctxt, addr)
+            conn.seq_sending = CN0.SeqNum(start_s)
+            conn.seq_message = CN0.SeqNum(start_s // 2)
+        CN0.ServerClientConnection.__init__ = sinit
+        atk_restore = lambda: setattr(CN0.ServerClientConnection, "__init__", orig_sinit)
 
         # ---------- phase: client without a key (hello sent, server hello withheld)
         w.phase = "client-prekey"
@@ -168,6 +183,7 @@ def history(cfg, case, out):
         w.step(130)                       # let the server's temp connection expire
         w.phase = "handshake"
         w.connect_client(a)
+        atk_restore()
 
         # ---------- phase: server, new address (no connection object yet / created by the datagram)
         w.phase = "server-new-address"
@@ -255,7 +271,23 @@ def history(cfg, case, out):
 
         # ---------- phase: a second live session's ciphertext presented to this one (sealed under another key)
         w.phase = "other-session"
-        b = w.connect_client()
+        # the other session's sequence numbers lie AHEAD of the victim's (fresh for the victim's windows): both of its ends
+        # start counting there
+        CN = run.C
+        inits = [(CN.ClientServerConnection, CN.ClientServerConnection.__init__, int(a.udp.conn.seq_sending) + 60),
+                 (CN.ServerClientConnection, CN.ServerClientConnection.__init__, int(run.sconn(a).seq_sending) + 60 if run.sconn(a) is not None else 0)]
+        for cls, orig_init, start in inits:
+            def init(conn, *args, _o=orig_init, _s=start, **kw):
+                _o(conn, *args, **kw)
+                if _s:
+                    conn.seq_sending = CN.SeqNum(_s % 65535 + 1)
+            cls.__init__ = init
+        try:
+            b = w.connect_client()
+        finally:
+            for cls, orig_init, start in inits:
+                cls.__init__ = orig_init
+        run.c.inc("c01_other_session_ahead_of_victim")
         for _ in range(10):
             run.app.send(b, "client", 64, 0)
             sb = run.sconn(b)
@@ -381,6 +413,10 @@ def history(cfg, case, out):
 
         w.net.heal()
         w.step(30)
+        # ---------- world-level oracle: whatever arrived, the clients kept talking to the server they connected to
+        for t, caddr, dest, nbytes, origin in w.misdirected[:3]:
+            run.report("C01", "client-redirected-by-unauthenticated-datagram", "client %s addressed a datagram of %d bytes to %s instead of the server after reading a %s datagram" % (
+                caddr, nbytes, dest, origin), {"origin": str(origin), "role": "client", "phase": "any"})
         # ---------- bookkeeping
         for v in run.report.violations:
             if v["property"] == "C01":
@@ -417,7 +453,8 @@ def finish(tier, seed, results):
                          "inj:server|forged", "inj:client|forged", "inj:server|bitflip", "inj:client|bitflip",
                          "inj:server|truncation", "inj:server|header-rewrite-crc", "inj:server|wrong-key", "inj:client|wrong-key",
                          "inj:server|reflection", "inj:server|random", "c01_continuity_checks", "c01_sessions_survived_silent_phase", "c01_forged_queued_ahead_of_genuine",
-                         "c01_genuine_processed_despite_forgery_ahead", "c01_kicked_in_handle_message", "c01_forged_at_kicked_connection", "c01_rewrapped_hello_to_closed_client"], inconclusive)
+                         "c01_genuine_processed_despite_forgery_ahead", "c01_kicked_in_handle_message", "c01_forged_at_kicked_connection", "c01_rewrapped_hello_to_closed_client",
+                         "client_datagrams_from_foreign_address"], inconclusive)
     cov = {
         "evaluations": m["evaluations"],
         "distinct_nontrivial": m["distinct_nontrivial"],
